@@ -66,9 +66,19 @@ type Multi struct {
 	B  []KeyReq `json:"B"`
 }
 
+type VPair struct {
+	From string `json:"from"`
+	To   string `json:"to"`
+}
+
 type Input struct {
 	Universe []Val             `json:"universe"`
-	Keys     map[string]string `json:"keys"` // custom, custom2, wk, alias (current chunk)
+	Keys     map[string]string `json:"keys"` // custom, custom2, custom3, wk, wk2, alias (current chunk)
+	// VMap / VKeys: value normalisation a cloud provider registers at init (v1.NormalizedLabelValues): the
+	// translation VMap is registered, for the whole driver process, under every (canonical) key name in VKeys.
+	VMap  []VPair  `json:"vmap"`
+	VKeys []string `json:"vkeys"`
+	Reps  int      `json:"reps"` // repetitions of every multi-key call (Go map iteration order is random)
 	// KeySets rotate per chunk (one Cfg line each), so that every alias pair of the scenario is exercised
 	KeySets []map[string]string `json:"keysets"`
 	Cases    []Case            `json:"cases"`
@@ -362,7 +372,7 @@ func (d *drv) doCase(c Case) (ev trace.M) {
 	// --- Intersection called directly, left-nested, right-nested, reversed Add chain, with itself
 	probes := make([]*scheduling.Requirement, n)
 	for i := range c.Atoms {
-		probes[i] = newReq(canon, c.Atoms[i])
+		probes[i] = newReq(d.key(c.KK, c.Atoms[i].Ka), c.Atoms[i]) // written with the atom's own key spelling
 	}
 	x := probes[0]
 	for i := 1; i < n; i++ {
@@ -476,9 +486,25 @@ func (d *drv) doMulti(m Multi) (ev trace.M) {
 			ev = trace.M{"e": "CasePanic", "id": m.ID, "kk": "multi", "atoms": []trace.M{}, "msg": fmt.Sprint(p)}
 		}
 	}()
-	ev["ok"] = A.Compatible(B) == nil
-	ev["okAU"] = A.Compatible(B, scheduling.AllowUndefinedWellKnownLabels) == nil
-	ev["ints"] = A.Intersects(B) == nil
+	// Every call is repeated: Compatible / Intersects range over Go maps, whose iteration order is random, so an
+	// order-dependent answer shows only on a fraction of the calls.  The number of nil results is recorded.
+	reps := d.in.Reps
+	okN, okAUN, intsN, iscN := 0, 0, 0, 0
+	for i := 0; i < reps; i++ {
+		if A.Compatible(B) == nil {
+			okN++
+		}
+		if A.Compatible(B, scheduling.AllowUndefinedWellKnownLabels) == nil {
+			okAUN++
+		}
+		if A.Intersects(B) == nil {
+			intsN++
+		}
+		if A.IsCompatible(B, scheduling.AllowUndefinedWellKnownLabels) {
+			iscN++
+		}
+	}
+	ev["reps"], ev["okN"], ev["okAUN"], ev["intsN"], ev["iscN"] = reps, okN, okAUN, intsN, iscN
 	return ev
 }
 
@@ -516,10 +542,28 @@ func Replay(args []string) error {
 	}
 	// sanity of the scenario: the driver refuses to run with key names the code would not treat as intended
 	for _, ks := range d.in.KeySets {
-		if !v1.WellKnownLabels.Has(ks["wk"]) || v1.WellKnownLabels.Has(ks["custom"]) || v1.WellKnownLabels.Has(ks["custom2"]) {
-			return fmt.Errorf("scenario keys: wk=%q must be well known, custom=%q/%q must not be", ks["wk"], ks["custom"], ks["custom2"])
+		if !v1.WellKnownLabels.Has(ks["wk"]) || !v1.WellKnownLabels.Has(ks["wk2"]) || ks["wk"] == ks["wk2"] ||
+			v1.WellKnownLabels.Has(ks["custom"]) || v1.WellKnownLabels.Has(ks["custom2"]) || v1.WellKnownLabels.Has(ks["custom3"]) {
+			return fmt.Errorf("scenario keys: wk=%q wk2=%q must be distinct well-known keys, custom=%q/%q/%q must not be",
+				ks["wk"], ks["wk2"], ks["custom"], ks["custom2"], ks["custom3"])
 		}
 	}
+	if d.in.Reps <= 0 {
+		d.in.Reps = 24
+	}
+	// register the value normalisation the way a cloud provider does at init; it stays for the whole process
+	vmap := []trace.M{}
+	for _, k := range d.in.VKeys {
+		m := map[string]string{}
+		for _, p := range d.in.VMap {
+			m[p.From] = p.To
+		}
+		v1.NormalizedLabelValues[k] = m
+	}
+	for _, p := range d.in.VMap {
+		vmap = append(vmap, trace.M{"from": p.From, "to": p.To})
+	}
+	vkeys := append([]string{}, d.in.VKeys...)
 	chunkNo := 0
 	nextKeys := func() {
 		d.in.Keys = d.in.KeySets[chunkNo%len(d.in.KeySets)]
@@ -535,7 +579,8 @@ func Replay(args []string) error {
 	}
 	cfg := func() trace.M {
 		return trace.M{"universe": uni, "custom": d.in.Keys["custom"], "custom2": d.in.Keys["custom2"],
-			"wk": d.in.Keys["wk"], "alias": d.in.Keys["alias"]}
+			"custom3": d.in.Keys["custom3"], "wk": d.in.Keys["wk"], "wk2": d.in.Keys["wk2"], "alias": d.in.Keys["alias"],
+			"vmap": vmap, "vkeys": vkeys}
 	}
 	for i, c := range d.in.Cases {
 		if i%d.in.Chunk == 0 {
